@@ -53,9 +53,9 @@ def validate_runs(ctx, events, label, module="CoreTrace", cfg="CoreTrace.cfg"):
             line = int(r.rejected[0][0])
             why = f"trace rejected by {module}: first unexplained event (line {line}): {r.rejected[0][1][:1500]}"
         else:
-            m = re.search(r"/\\ l = (\d+)\s*$", r.out, re.M)
-            line = int(m.group(1)) if m else 1
-            why = f"{module}: {', '.join(r.violated)} violated at trace line {line}"
+            import tracecheck
+            line, why0 = tracecheck.violated_line(r)
+            why = f"{module}: {why0}"
         pos, bad = 0, None
         for i, run in enumerate(pending):
             if pos < line <= pos + len(run):
